@@ -311,6 +311,9 @@ Definition stale_harmful (c : cfg) : list (N * nat) :=
                                            end) (with_idx (gen_scripts k) 0)) (streams_of c)
   end.
 
+Lemma stale_harmful_single : stale_harmful cfg_single = [(1%N, 3); (1%N, 18); (1%N, 21); (5%N, 11)].
+Proof. vm_compute. reflexivity. Qed.
+
 Lemma gen_conc_oracle_accepts : forall (c : cfg) (sched : list (bool * outcome)) (hs : ccat cat) (who : bool),
   opmon gen_sids None (oplog who (map (fun e => (fst e, abs_event gen_sids (snd e)))
      (snd (ch_conc gen_scripts gen_oncluster c sched (proc0 c) (proc0 c) (db0 (ccat cat) hs))))) = true.
